@@ -205,6 +205,10 @@ def partial_key_memos(prog, ci):
                     if isinstance(n, ast.Compare) and any(isinstance(o, (ast.Is, ast.IsNot)) for o in n.ops) and \
                             any(isinstance(c, ast.Constant) and c.value is None for c in n.comparators):
                         return True
+                    # identity key: `arg is not self._source`
+                    if isinstance(n, ast.Compare) and any(isinstance(o, (ast.Is, ast.IsNot)) for o in n.ops) and \
+                            any(is_self_attr(x) for x in [n.left] + list(n.comparators)):
+                        return True
                 return False
             tests = []
             p_, child = getattr(st, "_parent", None), st
